@@ -19,6 +19,9 @@ func init() { core.Register(c02{}) }
 
 func (c02) ID() string { return "C02" }
 
+// EvalFeatures names the counters of judged executions.
+func (c02) EvalFeatures() []string { return []string{"expressions"} }
+
 func (c02) Cases(tier string) int {
 	if tier == "thorough" {
 		return 30000
